@@ -105,6 +105,8 @@ struct gstate {
 	uint32_t stick;		/* /256 */
 	int ntimed_frozen;
 	int sync_bias;
+	void (*thread_exit_hook)(int);	/* scenario callback, run by every exiting simulated thread after its last destructor */
+	int lib_create_fail;	/* pthread_create() may fail with EAGAIN for callers that are library-internal threads */
 	int thread_stalls;	/* this run: every new thread may get one long planned stall */		/* random walk: preemptions concentrated at synchronisation calls (lock/unlock/futex/...) */
 	uint32_t p_plain;	/* /256 : 0, 16, 64, 256 */
 	uint32_t p_drain;	/* /256 */
